@@ -89,9 +89,21 @@ PROPS = {
         # the model of Update *is* the keymap the property speaks of: a state that differs from
         # it after a key sequence is a key that did not do what the keymap says
         "correspondence_is_failure": {"ui": True},
-        "groups": [{"name": "C07", "quick": 400, "thorough": 12000, "workers": 16}],
+        "groups": [{"name": "C07", "quick": 240, "thorough": 12000, "workers": 12},
+                   # the same worlds in processes started with other preload amounts (the default is 5):
+                   # nothing preloaded, one, two, more than any thread or listing holds
+                   {"name": "C07", "quick": 24, "thorough": 1500, "workers": 2, "config": "[network]\npreload_amount = 0\n"},
+                   {"name": "C07", "quick": 24, "thorough": 1500, "workers": 2, "config": "[network]\npreload_amount = 1\n"},
+                   {"name": "C07", "quick": 24, "thorough": 1500, "workers": 2, "config": "[network]\npreload_amount = 2\n"},
+                   {"name": "C07", "quick": 24, "thorough": 1500, "workers": 2, "config": "[network]\npreload_amount = 12\ncache_size = 3\n"}],
         "rule": "worlds over the TLS simulator: a thread of 1..8 notes (plain-text bodies containing URLs of other objects, so numbered links can be opened), a paged reply collection under the leaf (incl. an empty first page, comments answering another post, a missing collection), two actors on different hosts, multi-author posts (a foreign-host author turns the post into an error item), a paged outbox of 0..13 activities (some by another actor), an empty collection, a 404; started with Subcommand(open, <start>) and driven by 3..27 key tokens: j k g h l space c r a o p b, numbers followed by . / Enter / Esc / Backspace / another key (0, over-long numbers), :open <url>, :feed, bogus commands, arbitrary bytes, terminal resizes between keys and in the middle of typing (often one dimension only); "
-                "after every token (once loads have settled, detected through the shim) compared: mode, buffer, highlighted item, the window of items around the cursor, presence of frontier/children, base point; non-trivial = at least three tokens; distinct by op content",
+                "added by the generator review: raw bytes that are not UTF-8 (BYTES tokens, also as whole command lines and after :open / :feed), numbers with leading zeros, with more digits than there are links, at the edges of int32/int64/uint64 and followed by every kind of key, notes with 9..13 links (two-digit numbers name links), "
+                "Escape / Backspace at a random point of a partially typed command or number with the rest typed all the same, :open and :feed with odd arguments (empty, spaces only, leading/trailing space, other letter case, 150..550 characters, fragment, query, other scheme, no scheme, @ and ! and file forms, non-ASCII, NUL, two commands in one token), "
+                "one session in 14 of 100..220 tokens plus a history 8..37 pages deep walked to both ends, HELD tokens (the simulator holds every request, a starter :open / :feed / N. is typed, and while its page load is in flight - reported by the harness per token - every kind of key token and resizes arrive, which the keymap says do nothing), "
+                "HELDS tokens (the same while only the surroundings of a page are loading: every key but j/k and page loads, compared with the same keys typed one by one), terminals of 1..8 columns or 1..3 rows from the start or by resize with every kind of status line and the loading frame drawn on them, "
+                "one world in 8 with items of 120..420 lines at the ends and the centre of the thread, the interface started with `feed <name>` (an unknown feed or subcommand must be refused before any page exists), media hooks that fail silently / with two lines / with 400 long lines on both streams / with control bytes, escape sequences and invalid UTF-8 / succeed with much output, "
+                "and the same ops in processes started with preload_amount 0, 1, 2 and 12 (cache_size 3); "
+                "after every token (once loads have settled, detected through the shim) compared: mode, buffer, highlighted item, the window of items around the cursor, presence of frontier/children, base point, the number of history steps possible backwards and forwards; non-trivial = at least three tokens; distinct by op content",
         "trusted": ["crypto/tls, net; the Go scheduler (the check waits for quiescence; interleavings are C08's subject)",
                     "url/json oracle tables as in C02; GetMarkup's link list for every body as an oracle table (numbering itself is C12)",
                     "webfinger handles, local files and configured feeds are outside the generated worlds (modelled as error items / 'not a known feed')"],
@@ -100,10 +112,12 @@ PROPS = {
     },
     "C08": {
         "lean_modules": ["Props.Facts17"],
-        "groups": [{"name": "C08", "quick": 64, "thorough": 3000, "workers": 16, "config": "[feeds]\nhome = [\"https://127.0.0.1:1/a\", \"https://127.0.0.1:1/b\"]\n"}],
+        "groups": [{"name": "C08", "quick": 96, "thorough": 3000, "workers": 12}],
         "race": True,
         "level": "proof",
-        "rule": "the UI worlds of C07 driven the way main.go drives the UI: one goroutine per key byte (30..90 navigation, selection and :open tokens), a poller resizing every 0.3 ms, simulator latencies of 0..8 ms, all under the Go race detector; observed: data-race reports, overlapping frame emissions, frames whose height differs from the state's height at drawing time, key handlers that never return (20 s watchdog); "
+        "rule": "the UI worlds of C07 driven the way main.go drives the UI: one goroutine per key byte (30..90 navigation, selection, :open and :feed tokens, also failing :open and unknown commands), 1..3 pollers resizing every 0.3..0.6 ms (one run in three also to 1..5 columns / 2..3 rows and 200x70), simulator latencies of 0..8 ms drawn per request, in one run in three a latency bound redrawn every 0.1..1 ms from 0..30 ms, "
+                "keys in bursts without any gap / with rare long gaps / with a gap after every third, feeds of the op itself (live outboxes and threads, an empty one, two dead addresses, a dead address next to live ones, an unknown name), the interface started by open or by feed, one response in 12 cut short (EOF or reset at a random offset, reset before the first byte) or dribbling in byte by byte, "
+                "media hooks that sleep 2..20 ms, exit at once with success or failure, fail with a line or with 200 KB of output, read their input and exit, or cannot be started at all; all under the Go race detector; observed: data-race reports, overlapping frame emissions, frames whose height differs from the state's height at drawing time, key handlers that never return (20 s watchdog); "
                 "non-trivial = at least one frame was emitted; distinct by op content",
         "trusted": ["extract/ (go/ast): reports the lock/access skeleton of ui/ui.go and the goroutine fan-outs faithfully; paths through a method are sub-sequences of its flattened skeleton with the same lock state because lock operations occur only at nesting depth 0 (checked)",
                     "the Go memory model, sync.Mutex, sync.WaitGroup; golang-lru and singleflight are internally synchronised",
@@ -293,7 +307,9 @@ PROPS = {
                    {"name": "C16x", "quick": 0, "thorough": 7, "workers": 1},
                    # concurrent keys, loads and resizes: every frame as tall as the state says when it is drawn
                    {"name": "C08", "quick": 24, "thorough": 600, "workers": 12}],
-        "rule": "prefix/centered/suffix of 0..8 styled lines each x heights 1..16; non-trivial = height exceeds the centred text (buffers are computed); distinct by op content",
+        "rule": "prefix/centered/suffix of 0..8 styled lines each x heights 1..16; one layout in four with parts of nothing, of up to 40 styled lines, of 100..500 rows or of up to 300 empty lines above, at and below the cursor x heights 1..4, around the size of the centre and of centre + twice the part above / below (where the layout changes its case), the sum of all parts, 2..61 and 100..999; "
+                "ReplaceLastLine on frames of one line, of empty lines only and of hundreds of lines with an empty or a styled status line; status-line SetLength on raw text (control characters, often exactly as long as the width); the C07 sessions (all frames judged: tiny terminals, very tall items, every status line, hook output variants, loading frames drawn during held loads) and the C08 stress (frame height against the state's height at drawing time); "
+                "thorough: C16x = every geometry of 0..7 lines per part (0 = the empty string) x heights 1..16; non-trivial = height exceeds the centred text (buffers are computed); distinct by op content",
         "trusted": [LIBS["regexp"]],
         "assumptions": ["frames are produced only by ui.State.view (generated fact)", "terminal height >= 2 for the status line clause"],
     },
